@@ -1101,6 +1101,10 @@ func (m *Manager) isValidSignedData(signedData *types.SignedData) bool {
 	if !bytes.Equal(signedData.Signer.Address, m.genesis.ProposerAddress) {
 		return false
 	}
+	// the address must be the address of the key the signature is verified with
+	if signedData.Signer.PubKey == nil || !bytes.Equal(signedData.Signer.Address, types.KeyAddress(signedData.Signer.PubKey)) {
+		return false
+	}
 	dataBytes, err := signedData.Data.MarshalBinary()
 	if err != nil {
 		return false
